@@ -1,6 +1,130 @@
-"""C09 rules (placeholder: fail-closed until the rules are implemented)."""
-from ..loader import AnalysisError
+"""C09 - interrupted runs neither forget nor duplicate jobs the scheduler accepted."""
+import ast
+import itertools
+
+from ..index import FuncInfo, dotted, walk_no_nested, loc, ancestors
+from .persist import (BASE, CORE, _calls, rule_atomic_replace, rule_close_writes, rule_exit_persists, rule_hash_after_accept)
+
+
+def bool_skeleton(expr, atoms):
+    """Evaluate a boolean expression under assignments of recognised atoms: returns f(assignment dict) -> bool|None."""
+    def ev(e, asg):
+        for name, pred in atoms.items():
+            if pred(e):
+                return asg[name]
+        if isinstance(e, ast.BoolOp):
+            vals = [ev(v, asg) for v in e.values]
+            if isinstance(e.op, ast.And):
+                if any(v is False for v in vals):
+                    return False
+                return None if any(v is None for v in vals) else True
+            if any(v is True for v in vals):
+                return True
+            return None if any(v is None for v in vals) else False
+        if isinstance(e, ast.UnaryOp) and isinstance(e.op, ast.Not):
+            v = ev(e.operand, asg)
+            return None if v is None else not v
+        return None
+    return lambda asg: ev(expr, asg)
 
 
 def run(ctx):
-    raise AnalysisError("rules for C09 not implemented yet")
+    idx = ctx.index
+    res = ctx.resolver
+
+    # ---------------- R1 persistence on every exit of the run
+    r1 = ctx.rule("R1", "the whole run executes inside with-blocks of both state stores, whose __exit__ always saves", min_instances=6)
+    run_f = idx.func("gwf.plugins.run:run")
+    rcon = f"{run_f.module.relpath}::{run_f.qual}"
+    sw_call = None
+    for n in walk_no_nested(run_f.node):
+        if isinstance(n, ast.Call) and idx.canon(n.func, run_f.module) == "gwf.scheduling.submit_workflow":
+            sw_call = n
+    if sw_call is None:
+        r1.violation(rcon, "run does not call submit_workflow", run_f.where)
+    else:
+        managers = {}
+        for a in ancestors(sw_call):
+            if isinstance(a, (ast.With, ast.AsyncWith)):
+                for item in a.items:
+                    c = item.context_expr
+                    if isinstance(c, ast.Call) and isinstance(item.optional_vars, ast.Name):
+                        managers[idx.canon(c.func, run_f.module)] = item.optional_vars.id
+        arg_names = {dotted(a) for a in sw_call.args} | {dotted(k.value) for k in sw_call.keywords}
+        for fn, label in (("gwf.backends.base.create_backend", "backend"), ("gwf.core.get_spec_hashes", "spec hashes")):
+            var = managers.get(fn) or managers.get(fn.replace("gwf.backends.base.", "gwf.backends."))
+            r1.check(var is not None and var in arg_names, f"{rcon}::with-{label.replace(' ', '-')}",
+                     f"submit_workflow runs inside `with {fn.rsplit('.', 1)[1]}(...) as {var}` and uses that object",
+                     f"the submission loop is not enclosed by the with-block of the {label} store (or uses another object): "
+                     "an exception or failing scheduler command ends the run without saving what was accepted", loc(sw_call, run_f.module))
+    rule_exit_persists(ctx, r1)
+    rule_close_writes(ctx, r1)
+
+    # ---------------- R2 hash only after accept
+    r2 = ctx.rule("R2", "a target's spec hash is recorded only if its submission was accepted")
+    rule_hash_after_accept(ctx, r2)
+
+    # ---------------- R3 failure detection
+    r3 = ctx.rule("R3", "a failing scheduler command surfaces as BackendError; every scheduler command goes through call()", min_instances=3)
+    call_f = idx.func("gwf.backends.utils:call")
+    ccon = f"{call_f.module.relpath}::{call_f.qual}"
+    raise_if = None
+    for n in walk_no_nested(call_f.node):
+        if isinstance(n, ast.If) and any(isinstance(s, ast.Raise) and s.exc is not None and (idx.canon(s.exc.func if isinstance(s.exc, ast.Call) else s.exc, call_f.module) or "")
+                                         .endswith("BackendError") for s in n.body):
+            raise_if = n
+    if raise_if is None:
+        r3.violation(ccon, "call() never raises BackendError: a rejected submission would be recorded as accepted", call_f.where)
+    else:
+        atoms = {
+            "rc": lambda e: isinstance(e, ast.Compare) and len(e.ops) == 1 and isinstance(e.ops[0], ast.NotEq) and ast.unparse(e.left).endswith(".returncode")
+            and isinstance(e.comparators[0], ast.Constant) and e.comparators[0].value == 0,
+            "err": lambda e: isinstance(e, ast.Compare) and len(e.ops) == 1 and isinstance(e.ops[0], ast.In) and isinstance(e.left, ast.Constant)
+            and e.left.value == "error:" and dotted(e.comparators[0]) == "stderr",
+        }
+        f = bool_skeleton(raise_if.test, atoms)
+        table = {(a, b): f({"rc": a, "err": b}) for a, b in itertools.product((False, True), repeat=2)}
+        want = {(False, False): False, (True, False): True, (False, True): True, (True, True): True}
+        r3.check(table == want, ccon + "::failure-test", "raises iff returncode != 0 or 'error:' in stderr",
+                 f"call() does not raise for every failure kind (non-zero exit, 'error:' on stderr): truth table (exit!=0, error:) -> raise is {table}",
+                 loc(raise_if, call_f.module))
+    ret_ok = any(isinstance(n, ast.Return) and dotted(n.value) == "stdout" for n in walk_no_nested(call_f.node))
+    comm = any(isinstance(n, ast.Assign) and isinstance(n.targets[0], ast.Tuple) and [dotted(e) for e in n.targets[0].elts] == ["stdout", "stderr"]
+               and any(isinstance(c.func, ast.Attribute) and c.func.attr == "communicate" for c in _calls(n.value)) for n in walk_no_nested(call_f.node))
+    r3.check(ret_ok and comm, ccon + "::stdout", "returns the command's stdout", "call() does not return the command's standard output", call_f.where)
+    # who may use subprocess
+    allowed = {"gwf.backends.utils:call", "gwf.workflow:Workflow.shell"}
+    n_sites = 0
+    for f_ in idx.functions.values():
+        if f_.module.name == "gwf.backends.local":
+            continue
+        for n in walk_no_nested(f_.node):
+            if isinstance(n, ast.Call) and isinstance(n.func, (ast.Name, ast.Attribute)):
+                c = idx.canon(n.func, f_.module) or ""
+                if c.startswith(("subprocess.", "os.system", "os.popen", "os.spawn", "os.exec")):
+                    n_sites += 1
+                    r3.check(f_.key in allowed, f"{f_.module.relpath}::{f_.qual}::{c}", "subprocess used by an allowed owner",
+                             f"{c} is used outside backends.utils.call: a scheduler command run here escapes the failure detection", loc(n, f_.module))
+    # every Ops method talks to the scheduler through call()
+    for mod, cname in (("gwf.backends.slurm", "SlurmOps"), ("gwf.backends.sge", "SGEOps"), ("gwf.backends.lsf", "LSFOps")):
+        m = idx.func(f"{mod}:{cname}.submit_target")
+        _v, effs, _u = res.reach(m)
+        subs = [e for e in effs if e.kind == "SCHED_SUBMIT"]
+        r3.check(len(subs) >= 1, f"{m.module.relpath}::{m.qual}::via-call", f"submits through call({subs[0].detail!r})" if subs else "",
+                 f"{cname}.submit_target does not submit through backends.utils.call", m.where)
+
+    # ---------------- R4 durability point (D19a)
+    r4 = ctx.rule("R4", "an accepted submission is made durable before the next one starts")
+    tb_submit = idx.func(f"{BASE}:TrackingBackend.submit")
+    _v, effs, _u = res.reach(tb_submit, stop=lambda f: f.cls is not None and f.cls.name.endswith("Ops") or f.key.startswith("gwf.backends.local:Client"))
+    writes = [e for e in effs if e.kind == "FS_WRITE" and e.finfo.key.startswith(f"{BASE}:TrackingBackend")]
+    if writes:
+        r4.ok(f"{tb_submit.module.relpath}::{tb_submit.qual}", f"state persisted at {writes[0].where}", tb_submit.where)
+    else:
+        r4.violation(f"{tb_submit.module.relpath}::{tb_submit.qual}", "the id of an accepted job lives only in memory until the with-block of the whole run exits: "
+                     "a hard kill (SIGKILL, node crash) between two submissions forgets every job accepted so far and the next run submits them again",
+                     tb_submit.where)
+
+    # ---------------- R5 atomic replace
+    r5 = ctx.rule("R5", "state files are replaced atomically (never truncated in place)", min_instances=2)
+    rule_atomic_replace(ctx, r5)
